@@ -884,10 +884,25 @@ func (fr *frame) selectInstr(in *ssa.Select) Value {
 		return t
 	}
 	for {
+		// ready cases; when several are ready Go picks one pseudo-randomly, so
+		// the pick is a decision of the exploration
+		var ready []int
 		for i, s := range states {
 			if s.ch == nil {
 				continue
 			}
+			if len(s.ch.Buf) > 0 || s.ch.Closed || (s.ch.Ticker && e.ticks > 0) {
+				ready = append(ready, i)
+			}
+		}
+		if len(ready) > 0 {
+			k := 0
+			if len(ready) > 1 {
+				k = e.choose(len(ready), func(int) *Term { return e.st.True }, false)
+				e.recordChoice("select", ready[k])
+			}
+			i := ready[k]
+			s := states[i]
 			if len(s.ch.Buf) > 0 {
 				v := s.ch.Buf[0]
 				s.ch.Buf = s.ch.Buf[1:]
@@ -898,6 +913,8 @@ func (fr *frame) selectInstr(in *ssa.Select) Value {
 			if s.ch.Closed {
 				return mk(i, false)
 			}
+			e.ticks--
+			return mk(i, true)
 		}
 		if !in.Blocking {
 			return mk(-1, false)
@@ -935,6 +952,14 @@ func (e *Engine) chanRecv(ch *Chan, t types.Type, commaOk bool) (Value, bool) {
 			v := ch.Buf[0]
 			ch.Buf = ch.Buf[1:]
 			return v, true
+		}
+		if ch.Ticker && e.ticks > 0 {
+			e.ticks--
+			zt := t
+			if commaOk {
+				zt = t.(*types.Tuple).At(0).Type()
+			}
+			return e.zero(zt), true
 		}
 		if ch.Closed {
 			var zt types.Type
